@@ -43,7 +43,7 @@ static const char *const SOLVERS[] = {"cg", "bicgstab", "bicgstabl", "gmres", "l
 
 struct Env {
     Rng &r; size_t n = 0; std::vector<double> nsB;   // storage of the near null-space vectors handed over by pointer
-    bool allow_blocks = true;
+    bool allow_blocks = true, allow_nullspace = true;
     explicit Env(Rng &r_) : r(r_) {}
 };
 
@@ -67,56 +67,58 @@ inline void fill(amgcl::coarsening::pointwise_aggregates::params &p, ptree &t, c
     setv(p.block_size, t, k + "block_size", (unsigned)((e.allow_blocks && e.n % 2 == 0 && e.r.coin(0.2)) ? 2 : 1));
 }
 inline void fill(amgcl::coarsening::nullspace_params &p, ptree &t, const std::string &k, Env &e) {
-    if (!e.r.coin(0.3)) return;                     // default: no near null-space vectors
+    if (!e.allow_nullspace || !e.r.coin(0.3)) return;   // default: no near null-space vectors
     int cols = (int)e.r.range(1, 2);
     e.nsB.resize(e.n * cols);
     for (size_t i = 0; i < e.n; ++i) { e.nsB[i * cols] = 1.0; if (cols > 1) e.nsB[i * cols + 1] = e.r.uni(-1, 1); }
     p.cols = cols; p.B = e.nsB;
     t.put(k + "cols", cols); t.put(k + "rows", e.n); t.put(k + "B", e.nsB.data());
 }
-inline void fill(amgcl::coarsening::aggregation<B>::params &p, ptree &t, const std::string &k, Env &e) {
-    fill(p.aggr, t, k + "aggr.", e); fill(p.nullspace, t, k + "nullspace.", e);
-    setv(p.over_interp, t, k + "over_interp", (float)e.r.uni(1.0, 2.0));
-}
-inline void fill(amgcl::coarsening::smoothed_aggregation<B>::params &p, ptree &t, const std::string &k, Env &e) {
-    fill(p.aggr, t, k + "aggr.", e); fill(p.nullspace, t, k + "nullspace.", e);
-    setv(p.relax, t, k + "relax", (float)e.r.uni(0.5, 1.4));
-    setv(p.estimate_spectral_radius, t, k + "estimate_spectral_radius", e.r.coin());
-    setv(p.power_iters, t, k + "power_iters", (int)e.r.range(0, 4));
-}
-inline void fill(amgcl::coarsening::smoothed_aggr_emin<B>::params &p, ptree &t, const std::string &k, Env &e) {
-    fill(p.aggr, t, k + "aggr.", e); fill(p.nullspace, t, k + "nullspace.", e);
-}
-inline void fill(amgcl::coarsening::ruge_stuben<B>::params &p, ptree &t, const std::string &k, Env &e) {
-    setv(p.eps_strong, t, k + "eps_strong", (float)e.r.uni(0.1, 0.5));
-    setv(p.do_trunc, t, k + "do_trunc", e.r.coin(0.6));
-    setv(p.eps_trunc, t, k + "eps_trunc", (float)e.r.uni(0.05, 0.4));
-}
-//--- relaxation -------------------------------------------------------------
-inline void fill(amgcl::relaxation::damped_jacobi<B>::params &p, ptree &t, const std::string &k, Env &e) { setv(p.damping, t, k + "damping", e.r.uni(0.4, 0.95)); }
-inline void fill(amgcl::relaxation::gauss_seidel<B>::params &p, ptree &t, const std::string &k, Env &e) { setv(p.serial, t, k + "serial", e.r.coin()); }
 inline void fill(amgcl::detail::empty_params &, ptree &, const std::string &, Env &) {}
-inline void fill(amgcl::relaxation::chebyshev<B>::params &p, ptree &t, const std::string &k, Env &e) {
-    setv(p.degree, t, k + "degree", (unsigned)e.r.range(1, 6));
-    setv(p.higher, t, k + "higher", (float)e.r.uni(1.0, 1.3));
-    setv(p.lower, t, k + "lower", (float)e.r.uni(0.02, 0.3));
-    setv(p.power_iters, t, k + "power_iters", (int)e.r.range(0, 5));
-    setv(p.scale, t, k + "scale", e.r.coin());
+// The backend dependent fill overloads, as a macro so that the block-valued backend gets its own set (c14_eq_block.cpp).
+#define C14_FILLS(BK) \
+inline void fill(amgcl::coarsening::aggregation<BK>::params &p, ptree &t, const std::string &k, Env &e) { \
+    fill(p.aggr, t, k + "aggr.", e); fill(p.nullspace, t, k + "nullspace.", e); \
+    setv(p.over_interp, t, k + "over_interp", (float)e.r.uni(1.0, 2.0)); \
+} \
+inline void fill(amgcl::coarsening::smoothed_aggregation<BK>::params &p, ptree &t, const std::string &k, Env &e) { \
+    fill(p.aggr, t, k + "aggr.", e); fill(p.nullspace, t, k + "nullspace.", e); \
+    setv(p.relax, t, k + "relax", (float)e.r.uni(0.5, 1.4)); \
+    setv(p.estimate_spectral_radius, t, k + "estimate_spectral_radius", e.r.coin()); \
+    setv(p.power_iters, t, k + "power_iters", (int)e.r.range(0, 4)); \
+} \
+inline void fill(amgcl::coarsening::smoothed_aggr_emin<BK>::params &p, ptree &t, const std::string &k, Env &e) { \
+    fill(p.aggr, t, k + "aggr.", e); fill(p.nullspace, t, k + "nullspace.", e); \
+} \
+inline void fill(amgcl::coarsening::ruge_stuben<BK>::params &p, ptree &t, const std::string &k, Env &e) { \
+    setv(p.eps_strong, t, k + "eps_strong", (float)e.r.uni(0.1, 0.5)); \
+    setv(p.do_trunc, t, k + "do_trunc", e.r.coin(0.6)); \
+    setv(p.eps_trunc, t, k + "eps_trunc", (float)e.r.uni(0.05, 0.4)); \
+} \
+inline void fill(amgcl::relaxation::damped_jacobi<BK>::params &p, ptree &t, const std::string &k, Env &e) { setv(p.damping, t, k + "damping", e.r.uni(0.4, 0.95)); } \
+inline void fill(amgcl::relaxation::gauss_seidel<BK>::params &p, ptree &t, const std::string &k, Env &e) { setv(p.serial, t, k + "serial", e.r.coin()); } \
+inline void fill(amgcl::relaxation::chebyshev<BK>::params &p, ptree &t, const std::string &k, Env &e) { \
+    setv(p.degree, t, k + "degree", (unsigned)e.r.range(1, 6)); \
+    setv(p.higher, t, k + "higher", (float)e.r.uni(1.0, 1.3)); \
+    setv(p.lower, t, k + "lower", (float)e.r.uni(0.02, 0.3)); \
+    setv(p.power_iters, t, k + "power_iters", (int)e.r.range(0, 5)); \
+    setv(p.scale, t, k + "scale", e.r.coin()); \
+} \
+inline void fill(amgcl::relaxation::detail::ilu_solve<BK>::params &p, ptree &t, const std::string &k, Env &e) { setv(p.serial, t, k + "serial", e.r.coin()); } \
+inline void fill(amgcl::relaxation::ilu0<BK>::params &p, ptree &t, const std::string &k, Env &e) { \
+    setv(p.damping, t, k + "damping", e.r.uni(0.5, 1.0)); fill(p.solve, t, k + "solve.", e); \
+} \
+inline void fill(amgcl::relaxation::iluk<BK>::params &p, ptree &t, const std::string &k, Env &e) { \
+    setv(p.k, t, k + "k", (int)e.r.range(0, 3)); setv(p.damping, t, k + "damping", e.r.uni(0.5, 1.0)); fill(p.solve, t, k + "solve.", e); \
+} \
+inline void fill(amgcl::relaxation::ilup<BK>::params &p, ptree &t, const std::string &k, Env &e) { \
+    setv(p.k, t, k + "k", (int)e.r.range(0, 2)); setv(p.damping, t, k + "damping", e.r.uni(0.5, 1.0)); fill(p.solve, t, k + "solve.", e); \
+} \
+inline void fill(amgcl::relaxation::ilut<BK>::params &p, ptree &t, const std::string &k, Env &e) { \
+    setv(p.p, t, k + "p", e.r.uni(1.0, 4.0)); setv(p.tau, t, k + "tau", e.r.logu(1e-3, 1e-1)); \
+    setv(p.damping, t, k + "damping", e.r.uni(0.5, 1.0)); fill(p.solve, t, k + "solve.", e); \
 }
-inline void fill(amgcl::relaxation::detail::ilu_solve<B>::params &p, ptree &t, const std::string &k, Env &e) { setv(p.serial, t, k + "serial", e.r.coin()); }
-inline void fill(amgcl::relaxation::ilu0<B>::params &p, ptree &t, const std::string &k, Env &e) {
-    setv(p.damping, t, k + "damping", e.r.uni(0.5, 1.0)); fill(p.solve, t, k + "solve.", e);
-}
-inline void fill(amgcl::relaxation::iluk<B>::params &p, ptree &t, const std::string &k, Env &e) {
-    setv(p.k, t, k + "k", (int)e.r.range(0, 3)); setv(p.damping, t, k + "damping", e.r.uni(0.5, 1.0)); fill(p.solve, t, k + "solve.", e);
-}
-inline void fill(amgcl::relaxation::ilup<B>::params &p, ptree &t, const std::string &k, Env &e) {
-    setv(p.k, t, k + "k", (int)e.r.range(0, 2)); setv(p.damping, t, k + "damping", e.r.uni(0.5, 1.0)); fill(p.solve, t, k + "solve.", e);
-}
-inline void fill(amgcl::relaxation::ilut<B>::params &p, ptree &t, const std::string &k, Env &e) {
-    setv(p.p, t, k + "p", e.r.uni(1.0, 4.0)); setv(p.tau, t, k + "tau", e.r.logu(1e-3, 1e-1));
-    setv(p.damping, t, k + "damping", e.r.uni(0.5, 1.0)); fill(p.solve, t, k + "solve.", e);
-}
+C14_FILLS(B)
 //--- amg --------------------------------------------------------------------
 template <class AP> void fill_amg(AP &p, ptree &t, const std::string &k, Env &e) {
     fill(p.coarsening, t, k + "coarsening.", e); fill(p.relax, t, k + "relax.", e);
